@@ -1898,6 +1898,16 @@ impl SctpInner {
                 self.peer_cumulative_ack
                     .store(cumulative_tsn_ack, Ordering::SeqCst);
             }
+            // RFC 3758 §3.5 (C2/A5): the peer is still behind our advanced ack
+            // point, so the FORWARD TSN that moved it was lost: send it again.
+            if self.has_pr_sctp.load(Ordering::Relaxed)
+                && tsn_gt(
+                    self.advanced_peer_ack_tsn.load(Ordering::SeqCst),
+                    cumulative_tsn_ack,
+                )
+            {
+                self.forward_tsn_pending.store(true, Ordering::SeqCst);
+            }
 
             // Log peer_rwnd to understand flow control
             if a_rwnd < 100000 {
@@ -2362,6 +2372,21 @@ impl SctpInner {
                     }
                 }
             }
+
+            // Chunks that were waiting behind the skipped TSNs are in order now.
+            loop {
+                let next = self
+                    .cumulative_tsn_ack
+                    .load(Ordering::SeqCst)
+                    .wrapping_add(1);
+                let entry = self.received_queue.lock().remove(&next);
+                let Some((flags, queued)) = entry else { break };
+                let len = queued.len();
+                self.process_data_payload(flags, queued).await?;
+                self.cumulative_tsn_ack.store(next, Ordering::SeqCst);
+                self.used_rwnd.fetch_sub(len, Ordering::Relaxed);
+            }
+            self.schedule_sack_immediate();
 
             self.timer_notify.notify_one();
         }
@@ -3672,10 +3697,8 @@ impl SctpInner {
             return None;
         }
 
-        let stream_ssn_pairs: Vec<(u16, u16)> = {
-            let mut fwd = self.forward_tsn_streams.lock();
-            std::mem::take(&mut *fwd)
-        };
+        // Kept (not taken): a retransmitted FORWARD TSN must name the same streams.
+        let stream_ssn_pairs: Vec<(u16, u16)> = self.forward_tsn_streams.lock().clone();
 
         let pair_bytes = stream_ssn_pairs.len() * 4;
         let mut body = BytesMut::with_capacity(4 + pair_bytes);
